@@ -524,6 +524,18 @@ func rootIDStr(p *uint32) string {
 	return fmt.Sprint(*p)
 }
 
+// LooseFingerprint is what must survive serialization: the Datalog of the
+// blocks as printed, revocation identifiers, block count, root key id, context.
+func LooseFingerprint(b *biscuit.Biscuit) string {
+	var sb strings.Builder
+	sb.WriteString(strings.Join(b.Code(), "\n"))
+	for _, id := range b.RevocationIds() {
+		fmt.Fprintf(&sb, "\n--rev-- %x", id)
+	}
+	fmt.Fprintf(&sb, "\n--count-- %d --rootid-- %s --ctx-- %q", b.BlockCount(), rootIDStr(b.RootKeyID()), b.GetContext())
+	return sb.String()
+}
+
 // Fingerprint is everything observable about a token without evaluating Datalog.
 func Fingerprint(b *biscuit.Biscuit) string {
 	var sb strings.Builder
